@@ -279,6 +279,8 @@ impl<'a> Eval<'a> {
                 }
             }
             Ins::Fail(FailBody::Lit(c, m)) => Err(Catch(format!("fail {c} {m}"))),
+            // failing again with the error that was just caught: a failure whatever the error object is
+            Ins::Fail(FailBody::Val(Val::LastError(None))) | Ins::Fail(FailBody::Val(Val::Error(None))) => Err(Catch("rethrow".into())),
             Ins::Fail(FailBody::Val(v)) => {
                 let r = self.val(v)?;
                 Err(Catch(format!("fail {}", r.json)))
